@@ -37,6 +37,7 @@ package opt
 //@   modifies nothing
 //@ func (Cluster).GetRegion
 //@   assumed
+//@   ensures [the-cluster-s-region] result == ufptr("clusterRegion", core.RegionInfo, self, id) && allocated(result)
 //@   modifies nothing
 //@ func (Cluster).GetStore
 //@   assumed
